@@ -227,6 +227,86 @@ fn replay(cfg: &Cfg, model: &BTreeMap<String, Rat>, k: usize) -> (Option<bool>, 
     }
 }
 
+/// Native witness search for an axis-scale obligation that the solver refuted but whose exact replay in the model's
+/// (ordinary) units does not show a difference: the algebraic counterexample may need units in which an absolute
+/// constant matters. The real crate is run at f64 with the model's data in unit 1 and in the units 2^k below; only
+/// reached after the solver produced a counterexample, so it never runs on a tree where the obligations hold.
+fn native_unit_sweep(cfg: &Cfg, model: &BTreeMap<String, Rat>, rec: &mut Json) -> Option<bool> {
+    if !matches!(cfg.tf, Tf::AxisScale(_)) {
+        return None;
+    }
+    let lanes = cfg.lanes();
+    let shape = cfg.shape();
+    let total: usize = shape.iter().product();
+    let n = cfg.x.n();
+    let periodic = matches!(cfg.kind, Kind::Spline(Bc::Periodic));
+    let val = |name: String, dflt: f64| model.get(&name).map(|r| r.to_f64()).filter(|v| v.is_finite()).unwrap_or(dflt);
+    let mut data: Vec<f64> = (0..total).map(|i| val(format!("d{i}"), ((i * 7 + 3) % 11) as f64 - 4.0)).collect();
+    if data.iter().all(|v| *v == 0.0) {
+        data = (0..total).map(|i| ((i * 7 + 3) % 11) as f64 - 4.0).collect();
+    }
+    if periodic {
+        for j in 0..lanes {
+            data[(n - 1) * lanes + j] = data[j];
+        }
+    }
+    let x: Vec<f64> = cfg.x.x.iter().map(|r| r.to_f64()).collect();
+    let y: Option<Vec<f64>> = cfg.y.as_ref().map(|y| y.x.iter().map(|r| r.to_f64()).collect());
+    let vl: Vec<f64> = (0..lanes).map(|j| val(format!("vl{j}"), 0.5)).collect();
+    let vr: Vec<f64> = (0..lanes).map(|j| val(format!("vr{j}"), -0.25)).collect();
+    let qs: Vec<(f64, f64)> = cfg.queries().iter().map(|(a, b)| (a.to_f64(), b.to_f64())).collect();
+    let ends = |j: usize| match &cfg.kind {
+        Kind::Spline(bc) => bc.ends(j),
+        _ => None,
+    };
+    let base = Prob { kind: cfg.kind.clone(), x: Some(x.clone()), y: y.clone(), shape: shape.clone(), data, vl: vl.clone(), vr: vr.clone(), extrapolate: true, dynamic: false };
+    let call = Call::Array(vec![qs.len()], QRank::Static);
+    let (bo, bv) = crate::prob::native_outcome(&base, &call, &qs, 0.0);
+    let bv = match bv {
+        Some(v) if v.iter().all(|t| t.is_finite()) => v,
+        _ => {
+            rec.set("native_unit_sweep", format!("base not usable: {bo}"));
+            return None;
+        }
+    };
+    let mut tried = Vec::new();
+    for k in [-997i32, -990, -960, -700, -500, -300, 300, 500, 700, 960] {
+        let c = 2f64.powi(k);
+        let conv = |v: f64, e: Option<End>| match e {
+            Some(End::D1) => v / c,
+            Some(End::D2) => v / c / c,
+            _ => v,
+        };
+        let other = Prob {
+            x: Some(x.iter().map(|v| c * *v).collect()),
+            y: y.as_ref().map(|y| y.iter().map(|v| c * *v).collect()),
+            vl: (0..lanes).map(|j| conv(vl[j], ends(j).map(|e| e.0))).collect(),
+            vr: (0..lanes).map(|j| conv(vr[j], ends(j).map(|e| e.1))).collect(),
+            ..base.clone()
+        };
+        if other.vl.iter().chain(other.vr.iter()).any(|v| !v.is_finite()) {
+            continue;
+        }
+        let q2: Vec<(f64, f64)> = qs.iter().map(|(a, b)| (c * *a, c * *b)).collect();
+        let (oo, ov) = crate::prob::native_outcome(&other, &call, &q2, 0.0);
+        tried.push(format!("2^{k}: {oo}"));
+        if let Some(ov) = ov {
+            for (i, (a, o)) in bv.iter().zip(&ov).enumerate() {
+                if o.is_finite() && (a - o).abs() > 1e-6 * a.abs().max(1.0) {
+                    rec.set("native_unit_sweep", format!("axis unit 2^{k}: output element {i} is {o:e}, in unit 1 it is {a:e} (f64, real crate)"));
+                    rec.set("native_axis_unit_log2", k as i64);
+                    rec.set("native_data", format!("{:?}", base.data));
+                    rec.set("native_boundary_values", format!("{:?} {:?}", vl, vr));
+                    rec.set("native_query_in_unit_1", format!("{:?}", qs[i / lanes.max(1)]));
+                    return Some(true);
+                }
+            }
+        }
+    }
+    rec.set("native_unit_sweep", format!("no difference in the units tried: {tried:?}"));
+    None
+}
+
 fn check_config(cfg: &Cfg) -> Report {
     with_ctx(|c| c.reset_all());
     let mut chk = Chk::new(Mode::R, cfg.timeout_ms);
@@ -272,7 +352,12 @@ fn check_config(cfg: &Cfg) -> Report {
                     q.push(format!("(not (= {} {}))", chk.term(want), chk.term(o[k])));
                     if let Verdict::Cex(vals) = chk.must_unsat(cfg.tf.class(), &format!("path {pi} query {} lane {}: {}", k / lanes.max(1), k % lanes.max(1), cfg.tf.name()), &q, &all_vars) {
                         let model: BTreeMap<String, Rat> = vals.iter().filter_map(|(n, v)| sx_to_rat(v).map(|r| (n.clone(), r))).collect();
-                        let (rep, rec) = replay(cfg, &model, k);
+                        let (mut rep, mut rec) = replay(cfg, &model, k);
+                        if rep != Some(true) {
+                            if let Some(true) = native_unit_sweep(cfg, &model, &mut rec) {
+                                rep = Some(true);
+                            }
+                        }
                         chk.finding(&format!("C15:{}:{}", cfg.tf.class(), cfg.kind.name()), &format!("{}: result does not commute with the change of units / is not linear in the data", cfg.name()), rec, rep);
                     }
                     if !canary_done {
